@@ -94,6 +94,8 @@ impl CompactionWorker {
 
                 loop {
                     log::info!("Compaction thread waiting for tasks.");
+                    #[cfg(raindb_verif)]
+                    crate::verif::bg_idle(database_state.options.db_path());
                     let channel_task = receiver.recv().unwrap();
                     task_queue.push_back(channel_task);
 
@@ -231,6 +233,8 @@ impl CompactionWorker {
             ..
         } = db_state;
         let mut db_fields_guard = guarded_db_fields.lock();
+        #[cfg(raindb_verif)]
+        crate::verif::event(db_state.options.db_path(), "BgBegin", |_| vec![]);
 
         if is_shutting_down.load(Ordering::Acquire) {
             log::info!(
@@ -249,6 +253,8 @@ impl CompactionWorker {
         db_fields_guard.background_compaction_scheduled = false;
 
         background_work_finished_signal.notify_all();
+        #[cfg(raindb_verif)]
+        crate::verif::event(db_state.options.db_path(), "BgEnd", |_| vec![]);
 
         // The previous compaction may have created too many files in a level, so check and
         // schedule a compaction if needed
@@ -337,6 +343,42 @@ impl CompactionWorker {
             maybe_compaction_manifest = db_fields_guard.version_set.pick_compaction();
         }
 
+        #[cfg(raindb_verif)]
+        if let Some(compaction_manifest) = maybe_compaction_manifest.as_ref() {
+            crate::verif::event(db_state.options.db_path(), "Picked", |_| {
+                use crate::verif::Val;
+                let files = |files: &[Arc<crate::versioning::file_metadata::FileMetadata>]| {
+                    Val::List(files.iter().map(|f| Val::U(f.file_number())).collect())
+                };
+                vec![
+                    ("level", Val::U(compaction_manifest.level() as u64)),
+                    ("manual", Val::B(is_manual_compaction)),
+                    (
+                        "trivial",
+                        Val::B(!is_manual_compaction && compaction_manifest.is_trivial_move()),
+                    ),
+                    (
+                        "in0",
+                        files(compaction_manifest.get_compaction_level_files()),
+                    ),
+                    ("in1", files(compaction_manifest.get_parent_level_files())),
+                    (
+                        "smallest",
+                        Val::U(if db_fields_guard.snapshots.is_empty() {
+                            db_fields_guard.version_set.get_prev_sequence_number()
+                        } else {
+                            db_fields_guard
+                                .snapshots
+                                .oldest()
+                                .read()
+                                .element
+                                .sequence_number()
+                        }),
+                    ),
+                ]
+            });
+        }
+
         let mut has_compaction_error = false;
         if let Some(mut compaction_manifest) = maybe_compaction_manifest {
             if !is_manual_compaction && compaction_manifest.is_trivial_move() {
@@ -395,6 +437,19 @@ impl CompactionWorker {
                         compaction_state
                             .compaction_manifest_mut()
                             .release_inputs(&mut db_fields_guard.version_set);
+                        #[cfg(raindb_verif)]
+                        crate::verif::event(db_state.options.db_path(), "CompactionDone", |_| {
+                            vec![(
+                                "outputs",
+                                crate::verif::Val::List(
+                                    compaction_state
+                                        .get_output_files()
+                                        .iter()
+                                        .map(|f| crate::verif::Val::U(f.file_number()))
+                                        .collect(),
+                                ),
+                            )]
+                        });
                         DB::remove_obsolete_files(
                             db_fields_guard,
                             db_state.options.filesystem_provider(),
@@ -532,6 +587,8 @@ impl CompactionWorker {
         db_state
             .has_immutable_memtable
             .store(false, Ordering::Release);
+        #[cfg(raindb_verif)]
+        crate::verif::event(db_state.options.db_path(), "ImmDropped", |_| vec![]);
         DB::remove_obsolete_files(
             db_fields_guard,
             db_state.options.filesystem_provider(),
@@ -614,6 +671,8 @@ impl CompactionWorker {
 
                 while file_iterator.is_valid() && !db_state.is_shutting_down.load(Ordering::Acquire)
                 {
+                    #[cfg(raindb_verif)]
+                    crate::verif::sched_point(db_state.options.db_path(), "compact_loop");
                     if db_state.has_immutable_memtable.load(Ordering::Acquire) {
                         // Prioritize compacting an immutable memtable if there is one
                         let memtable_compaction_start = Instant::now();
